@@ -1316,6 +1316,19 @@ func (e *Enc) evalModTarget(x *SExpr, env *SpecEnv) []modTarget {
 		case "freshof":
 			// freshof(T.f): field component T.f, but only of objects allocated during the call/loop
 			tf := x.Args[1]
+			// freshof(T) / freshof(pkg.T): every field of T
+			if wt := e.w.resolveType(env.pkg, tf.String()); wt != nil {
+				var lvs []leaf
+				e.memLeaves(wt, "", &lvs)
+				seen := map[string]bool{}
+				for _, lf := range lvs {
+					if !seen[lf.suffix] {
+						seen[lf.suffix] = true
+						out = append(out, modTarget{comp: lf.suffix, sort: lf.sort, kind: "fresh"})
+					}
+				}
+				return out
+			}
 			if tf.Op != "sel" {
 				env.fail("freshof(T.f) expected")
 			}
